@@ -201,3 +201,123 @@ Definition C03_full (M : edif_pipeline) : Prop :=
   forall n : nv M, expressible M n ->
     exists d n', read (tokenize (print (emit M (edifify M n)))) = Some d /\
                  elab M d = Some n' /\ same_struct M n n'.
+
+(* ------------------------------------------------------------------------------------------ *)
+(* THE WHOLE-FILE WRITER (Fmt/EdifEmit.emit_file : timestamp -> program metadata -> float properties -> nvfile -> document,
+   construct by construct after ComposeEdif; tied to the real composer on every run by
+   harness/edif_emit.py: the file the composer wrote == emit_file of the value of the netlist)
+   composed with the whole-file READER (Fmt/EdifFile.elab_file, Props/C05.v). *)
+From Coq Require Import String.
+From SV Require Import Fmt.EdifFile Fmt.EdifEmit Proofs.EdifEmitProofs.
+
+(* the VERIFIED CHECKER, evaluated by the extracted model on every generated and bundled netlist of
+   every run: when it says yes, the document written for the value n is its own text and the
+   reader gives back [norm_file n] - the same libraries, cells, ports (direction, width, array-ness),
+   instances (references, properties), cables with the same pins wire by wire, the same top
+   instance, all names and identifiers; only the view is now called "netlist" and every bus carries
+   the array flag (Fmt/EdifNets.norm_entry) *)
+Theorem C03_emit_roundtrip_checked : forall ts prog fl n, rt_check ts prog fl n = true ->
+  exists d, emit_file ts prog fl n = EmOk d /\ sexp_ok d = true /\ elab_file d = Ok (norm_file n).
+Proof. exact rt_check_sound. Qed.
+Print Assumptions C03_emit_roundtrip_checked.
+
+(* ... from CHARACTERS: the text printed for the document, tokenized by the tokenizer model and read *)
+Theorem C03_emit_roundtrip_text_checked : forall ts prog fl n, rt_check ts prog fl n = true ->
+  exists t, emit_text ts prog fl n = EmOk t /\ elab_text t = Ok (norm_file n).
+Proof. exact rt_check_text. Qed.
+Print Assumptions C03_emit_roundtrip_text_checked.
+
+(* the equality the checker computes is Leibniz equality of netlist values *)
+Theorem C03_value_equality_decided : forall a b : nvfile, file_eqb a b = true -> a = b.
+Proof. exact file_eqb_eq. Qed.
+Print Assumptions C03_value_equality_decided.
+
+(* the timestamp is a parameter of the document only: it never decides whether a file is written *)
+Theorem C03_emit_timestamp_irrelevant : forall ts ts' prog fl n d, emit_file ts prog fl n = EmOk d ->
+  Forall (fun a => atom_ok a = true) ts' -> List.length ts' = List.length ts ->
+  exists d', emit_file ts' prog fl n = EmOk d'.
+Proof. exact emit_timestamp_only. Qed.
+Print Assumptions C03_emit_timestamp_irrelevant.
+
+(* a two-library netlist with renamed elements, an array port, properties of the three value
+   forms, a bus with lower index 2: it is writable, passes the checker, and this is its text *)
+Example C03_emit_roundtrip_example : ltac:(let t := type of emit_roundtrip_example in exact t).
+Proof. exact emit_roundtrip_example. Qed.
+(* a float property (parameter [fl] of the writer model) is written as (number (e 25 -10)) *)
+Example C03_emit_float_example : ltac:(let t := type of emit_float_example in exact t).
+Proof. exact emit_float_example. Qed.
+(* outside [writable]: the "&_" bus of C03_refuted_amp_bus as a whole file; the checker says no *)
+Example C03_emit_roundtrip_amp_bus_fails : ltac:(let t := type of emit_roundtrip_amp_bus_fails in exact t).
+Proof. exact emit_roundtrip_amp_bus_fails. Qed.
+
+(* PER-CONSTRUCT inverse lemmas (writer model then reader model), steps of the general statement: *)
+From SV Require Import Proofs.EdifEmitLemmas.
+(* _escape_string_ is undone by the reader's %..% decoding, for EVERY string *)
+Theorem C03_unescape_escape : forall s, unescape_value (escape_string s) = Ok s.
+Proof. exact unescape_escape. Qed.
+Print Assumptions C03_unescape_escape.
+(* _output_name_of_object_ / parse_nameDef: identifier and original name come back *)
+Theorem C03_name_roundtrip : forall ident name x,
+  ident_tok_ok ident = true -> text_ok name = true -> name_sexp ident name = EmOk x ->
+  exists n, parse_namedef x = Ok n /\ nm_ident n = ident /\ nm_name n = name.
+Proof. exact name_roundtrip. Qed.
+Print Assumptions C03_name_roundtrip.
+(* str(int) / int(): every integer *)
+Theorem C03_int_roundtrip : forall z, int_tok (dec_z z) = Some z.
+Proof. exact int_roundtrip. Qed.
+Print Assumptions C03_int_roundtrip.
+(* a whole (property ..) construct with an integer, string or boolean value *)
+Theorem C03_property_roundtrip : forall p x, propid_w (pr_ident p) = true -> prop_w p = true ->
+  prop_sexp p = EmOk x -> exists args, x = SList (KW "property" :: args) /\ parse_property args = Ok p.
+Proof. exact prop_roundtrip. Qed.
+Print Assumptions C03_property_roundtrip.
+(* the direction construct *)
+Theorem C03_direction_roundtrip : forall d l, dir_sexp d = EmOk l ->
+  loop port_step false (false, 0%N) l = Ok (negb (N.eqb d 0), d).
+Proof. exact dir_roundtrip. Qed.
+Print Assumptions C03_direction_roundtrip.
+
+(* a whole (port ..) construct, scalar or array, renamed or not, any direction: parse_port gives the
+   port back when no earlier sibling has its identifier or name *)
+Theorem C03_port_roundtrip : forall ports p x, port_w p = true -> port_sexp p = EmOk x ->
+  ident_taken (po_ident p) (map po_ident ports) = false ->
+  name_taken (po_name p) (map po_name ports) = false ->
+  exists args, x = SList (KW "port" :: args) /\ parse_port ports args = Ok p.
+Proof. exact port_roundtrip. Qed.
+Print Assumptions C03_port_roundtrip.
+(* the name of an element (library, cell, port, instance, net, design): legal identifier and name back *)
+Theorem C03_elemname_roundtrip : forall ident name x, ident_w ident = true -> text_ok name = true ->
+  name_sexp ident name = EmOk x ->
+  exists n, parse_elemname x = Ok n /\ nm_ident n = ident /\ nm_name n = name.
+Proof. exact elemname_roundtrip. Qed.
+Print Assumptions C03_elemname_roundtrip.
+
+(* the whole (interface ..) of a cell: all ports come back, in order *)
+Theorem C03_interface_roundtrip : forall ps xs, emap port_sexp ps = EmOk xs -> forallb port_w ps = true ->
+  uniq_ci (map po_ident ps) = true -> uniq_x (map po_name ps) = true ->
+  parse_interface (SList (KW "interface" :: xs)) = Ok ps.
+Proof. exact interface_roundtrip. Qed.
+Print Assumptions C03_interface_roundtrip.
+(* a whole (instance ..) construct with its reference and properties, in a reader context [cx] in
+   which the referenced cell is declared (library l resolved to l itself, cell c found under its
+   exact identifier, view "netlist"): the instance comes back with the ports of that cell *)
+Theorem C03_instance_roundtrip : forall cx insts lib cell i x l c cs C,
+  inst_sexp [] lib cell i = EmOk x -> in_ref i = Some (l, c) ->
+  elem_w (in_ident i) (in_name i) = true -> forallb prop_w (in_props i) = true ->
+  ident_w l = true -> ident_w c = true ->
+  resolve_lib cx (Some l) = Ok (l, cs) -> find_cell c cs = Some C -> ce_ident C = c ->
+  ce_view C = Some (K "netlist") ->
+  ident_taken (in_ident i) (map (fun ip : einst => in_ident (fst ip)) insts) = false ->
+  name_taken (in_name i) (map (fun ip : einst => in_name (fst ip)) insts) = false ->
+  exists args, x = SList (KW "instance" :: args) /\ parse_instance cx insts args = Ok (i, ce_ports C).
+Proof. exact inst_roundtrip. Qed.
+Print Assumptions C03_instance_roundtrip.
+
+(* The general statement over the decidable class [writable] (Fmt/EdifEmit.v: what the reader
+   checks on the written file, minus the open findings: "&_" buses, bit-like scalar names, names
+   with * ?, non-ASCII text, line breaks in strings). NOT PROVED. Every run evaluates, on every
+   generated and bundled netlist, writable n -> rt_check n (model) and writable n -> the
+   implementation reads its own file back to the same netlist; a counterexample is a VIOLATION. *)
+Definition C03_emit_roundtrip_full : Prop := forall ts prog n,
+  writable n = true -> params_w ts prog = true ->
+  exists t, emit_text ts prog [] n = EmOk t /\ elab_text t = Ok (norm_file n).
